@@ -138,30 +138,37 @@ def sc_contexts(rng, shared=True, n=2):
 
 
 def sc_inherit(rng):
-    """Thread 0 (parent) enters/exits contexts; thread 1 inherits from it and asks."""
-    timeline = [(-1, "TypeError")]  # (clock, tag) current T1 tag of the parent after each change
+    """Thread 0 (parent) enters/exits contexts; thread 1 inherits from it and asks.
+
+    Harness events of both threads are ordered by one global sequence counter (only one thread runs at a time, so
+    the counter is a total order; the scheduler clock only ticks at operation boundaries and cannot order two
+    events inside one tick).  A timeline entry is written AFTER the parent's change took effect."""
+    import itertools as _it
+
+    seq = _it.count()
+    timeline = [(next(seq), "TypeError")]  # (sequence number, tag): T1 tag current in the parent once this entry is written
     got = {}
     holder = {}
 
     def parent(s, me):
         holder["thread"] = threading.current_thread()
         rt.current_runtime()
-        timeline.append((s.clock, "TypeError"))
+        timeline.append((next(seq), "TypeError"))
         s.op(me)
         for tag in ("a", "b"):
             with rt.handle(T1, tagger(tag)):
-                timeline.append((s.clock, tag))
+                timeline.append((next(seq), tag))
                 s.op(me)
                 ask(T1)
                 s.op(me)
-            timeline.append((s.clock, "TypeError"))
+            timeline.append((next(seq), "TypeError"))
             s.op(me)
 
     def child(s, me):
         s.op(me)
-        t_call = s.clock
+        t_call = next(seq)
         rt.inherit(s.threads[0])
-        t_ret = s.clock
+        t_ret = next(seq)
         s.op(me)
         got["tag"] = ask(T1)
         got["interval"] = (t_call, t_ret)
@@ -171,17 +178,25 @@ def sc_inherit(rng):
         if "tag" not in got:
             return None
         t_call, t_ret = got["interval"]
+        # what the parent may have had current at some moment of the call: the state written last before the call
+        # started, every state written during it, and the first one written after it returned (its change may have
+        # taken effect while the call was still running)
         allowed = set()
         last = None
-        for clock, tag in timeline:
-            if clock <= t_call:
+        after = None
+        for n, tag in timeline:
+            if n < t_call:
                 last = tag
-            elif clock <= t_ret + 1:
+            elif n < t_ret:
                 allowed.add(tag)
+            elif after is None:
+                after = tag
         if last is not None:
             allowed.add(last)
+        if after is not None:
+            allowed.add(after)
         if got["tag"] not in allowed:
-            return f"inherit() between clocks {t_call}..{t_ret} gave handler {got['tag']!r}; the parent had {sorted(allowed)} current in that window (timeline {timeline})"
+            return f"inherit() between events {t_call}..{t_ret} gave handler {got['tag']!r}; the parent had {sorted(allowed)} current in that window (timeline {timeline})"
         if got["t0"] != "default0":
             return f"inherited runtime lost the default handler: {got['t0']!r}"
         return None
